@@ -341,6 +341,11 @@ func schemaTuples(s Schema, n int) []Tuple {
 
 // NewCompoundUniverse builds the universe of one schema from explicit tuples.
 func NewCompoundUniverse(name string, s Schema, free, probes []Tuple, nvals int) *Universe {
+	return NewCompoundUniverseD(name, s, free, probes, nvals, nil)
+}
+
+// NewCompoundUniverseD: driver factory for other value types.
+func NewCompoundUniverseD(name string, s Schema, free, probes []Tuple, nvals int, mkDrv func(SchemaCodec, *KeySpec[Tuple], map[string]int) Driver) *Universe {
 	codec := SchemaCodec{S: s}
 	u := &Universe{Name: "compound[" + s.String() + "]/" + name, Kind: "compound", KeyType: s.String(), NVals: nvals, HasRange: true}
 	var keys []Tuple
@@ -381,6 +386,9 @@ func NewCompoundUniverse(name string, s Schema, free, probes []Tuple, nvals int)
 	}
 	u.TKey = func(k int) []byte { _, b := codec.Transform(keys[k]); return b }
 	u.New = func() Driver { return NewDriver[Tuple](art.NewCompoundTree[Tuple, int](codec), spec, index) }
+	if mkDrv != nil {
+		u.New = func() Driver { return mkDrv(codec, spec, index) }
+	}
 	return u.Finish()
 }
 
